@@ -848,7 +848,8 @@ def _case_fp(case):
 
 def classify_split(case, e, rp, info, none=False):
     kind, sig, extra = _classify_split(case, e, rp, info, none)
-    if kind in ('not-split', 'hole-dropped', 'piece-lost', 'overlap', 'wrong-region'):
+    if kind in ('not-split', 'hole-dropped', 'piece-lost', 'overlap', 'wrong-region',
+                'cut-along-edge', 'dangling-cut-end'):
         if e.get('key_split'):
             return ('key-rounding', 'Face3D.split_with_*|key-rounding',
                     extra + '; during the call one point received two different node keys '
@@ -1420,10 +1421,18 @@ def run(ctx):
         req, c = run_lattice_case(case)
         reqs.append(req)
         ctxs.append(c)
+    # The graph-based split has open defects in degenerate configurations (cuts through
+    # vertices, along edges, through holes, self-crossing polylines - all inside the property's
+    # quantifier).  So that a listed finding covers exactly its recorded input, the split cases
+    # are one FIXED stream (independent of the seed; the quick tier explores a prefix of what
+    # the thorough tier explores): the failing members of that stream are a finite, listed set
+    # and any other failing input - e.g. after a change of the library - is reported.
+    rng_split = random.Random('c09/lattice-split/fixed-stream')
     for kind in plan:
         if time.time() > t0 + 0.45 * (stop - t0):
             break
-        case = {'bool': gen_bool_case, 'split': gen_split_case, 'holes': gen_holes_case}[kind](rng)
+        case = {'bool': gen_bool_case, 'split': gen_split_case, 'holes': gen_holes_case}[kind](
+            rng_split if kind == 'split' else rng)
         if case is None:
             continue
         req, c = run_lattice_case(case)
